@@ -1,14 +1,16 @@
 #!/usr/bin/env python3
-"""Run every quick_cmd of MANIFEST.json (optionally with VERIF_SEED=<n>) and summarise: allquick.py [seed]"""
+"""Run every quick_cmd (or thorough_cmd) of MANIFEST.json (optionally with VERIF_SEED=<n>) and summarise:
+allquick.py [seed] [quick|thorough]"""
 import json, os, subprocess, sys, time
 VERIF = os.path.dirname(os.path.dirname(os.path.abspath(__file__)))
 seed = sys.argv[1] if len(sys.argv) > 1 else "0"
+tier = sys.argv[2] if len(sys.argv) > 2 else "quick"
 m = json.load(open(os.path.join(VERIF, "MANIFEST.json")))
 bad = []
 t0 = time.time()
 for c in m["checks"]:
     t = time.time()
-    p = subprocess.run(c["quick_cmd"], shell=True, cwd=VERIF, env=dict(os.environ, VERIF_SEED=seed, VERIF_TIER="quick"),
+    p = subprocess.run(c["%s_cmd" % tier], shell=True, cwd=VERIF, env=dict(os.environ, VERIF_SEED=seed, VERIF_TIER=tier),
                        stdout=subprocess.PIPE, stderr=subprocess.STDOUT, text=True)
     alarm = [l for l in p.stdout.splitlines() if l.startswith(("VIOLATION", "TOOLING"))]
     print("%s exit=%d %.0fs %s" % (c["property_id"], p.returncode, time.time() - t, alarm[:1]), flush=True)
